@@ -232,7 +232,8 @@ def r2_r3_r4_relation(ctx: Context) -> None:
             raise AnalysisError(f"Task.{m} no longer writes the state; typestate anchors lost")
         found = any(o.kind == "return" and o.fields["_state"] == s2
                     for p in PRE_DOMAIN for o in rel[(m, s, p)])
-        if not found:
+        if not found and not ctx.violations:
+            # with no violation reported, a missing basic edge means the interpreter went blind
             raise AnalysisError(f"extracted relation lacks the basic edge {m}: {s}->{s2}; interpreter went blind")
     # R4
     bad = sorted(n for n in seen if n[0] == "VIRTUAL" and n[2] == 1)
